@@ -7,6 +7,7 @@ pub mod conc;
 pub mod crash;
 pub mod faults;
 pub mod handles;
+pub mod l2checks;
 pub mod lifecycle;
 
 pub fn all() -> Vec<&'static dyn Check> {
@@ -16,6 +17,7 @@ pub fn all() -> Vec<&'static dyn Check> {
     v.extend(conc::checks());
     v.extend(capi_conc::checks());
     v.extend(handles::checks());
+    v.extend(l2checks::checks());
     v.extend(faults::checks());
     v
 }
